@@ -8,12 +8,19 @@
                lydict_insert / lydict_insert_zc / lydict_remove (src/dict.c:122-266), each split into the table call
                and the separate read-modify-write of match->refcount, so that atomicity is a THEOREM about the lock,
                not an assumption of the model
-     err_ht    the per-thread error records of src/log.c: ly_err_get_rec (184-203), ly_err_new_rec (211-231), log_store
-               (467-550), ly_err_last/first (233-259), ly_err_clean (301-327). Records are stored INLINE in the
-               resizable arena of the hash table (context.c:324: lyht_new(1, sizeof(struct ly_ctx_err_rec), ..., 1)); a
-               record pointer is (generation, index); lyht_insert enlarges = frees the arena when used*100/size >= 75
-               (hash_table.c:399-412, LYHT_MIN_SIZE 8): the 6th record. The pointer returned by ly_err_get_rec /
-               ly_err_new_rec is used AFTER the lock is dropped (log.c:243, 258, 310-317, 482-491).
+     err_ht    the per-thread error records of src/log.c (as of /repo commit 75f292f): ly_err_get_rec, ly_err_new_rec,
+               log_store, ly_err_last/first, ly_err_clean. Every record is a heap cell of its own (calloc in
+               ly_err_new_rec) that lives until ly_ctx_destroy; the hash table stores POINTERS to the records
+               (context.c: lyht_new with the value size of one pointer). The table's arena is still freed when
+               lyht_insert enlarges it (used*100/size >= 75, hash_table.c:399-412, LYHT_MIN_SIZE 8: the 6th record;
+               the generation counter below counts that), but ly_err_get_rec reads the slot (found = the content of the slot) while it
+               still holds lyb_hash_lock and hands out the record's own address: a stable handle (the index of the
+               record in order of creation). The handle is used AFTER the lock is dropped (ly_err_last/first,
+               ly_err_clean, log_store), which is harmless now.
+               History: before 75f292f the records were stored INLINE in the arena and the handed-out pointer was
+               (generation, index): the 6th thread's first error freed the arena under the other threads' pointers
+               (err_rec_pointer_stable_refuted, known finding err-rec-resize). The witness schedule is kept as a
+               regression example (w_err_fine).
      canon     lazily cached canonical strings of shared values: lyplg_type_print_bits (plugins_types/bits.c:419-430)
                and the same code in binary.c:394, date_and_time.c:286, ipv4_address.c:299, ipv4_address_no_zone.c:171,
                ipv4_prefix.c:256, ipv6_address.c:302, ipv6_address_no_zone.c:219, ipv6_prefix.c:270, union.c:611:
@@ -37,8 +44,8 @@ Inductive resource := RDictTab | RErrTab | RHashCache.
 Definition guard (r : resource) : lockid :=
   match r with RDictTab => LDict | RErrTab => LHash | RHashCache => LHash end.
 
-(* struct ly_ctx_err_rec * : generation of the arena it points into, index of the record *)
-Record eptr := mkptr { p_gen : N; p_idx : nat }.
+(* struct ly_ctx_err_rec * : the separately allocated record, named by its index in order of creation *)
+Record eptr := mkptr { p_idx : nat }.
 
 (* the local variables of the C functions that survive from one step to the next *)
 Inductive reg :=
@@ -63,8 +70,8 @@ Inductive step :=
 | DictInsBump (s : bytes)       (* if (ret == LY_EEXIST) match->refcount++; then str_p gets match->value *)
 | DictRemFind (s : bytes)       (* lyht_find(hash_tab, s) *)
 | DictRemDec (s : bytes)        (* match->refcount--; if 0: lyht_remove + free; LY_ENOTFOUND when not found *)
-| ErrFind                       (* lyht_find(err_ht, {pthread_self()}) *)
-| ErrInsert                     (* lyht_insert(err_ht, {NULL, pthread_self()}) *)
+| ErrFind                       (* lyht_find(err_ht, &recp, ...) and the read of the found slot, both under the lock *)
+| ErrInsert                     (* rec = calloc(); lyht_insert(err_ht, &rec, ...); LY_EEXIST: free(rec), NULL *)
 | ErrWrite (e : N)              (* log_store: append an item through rec *)
 | ErrRead                       (* ly_err_last / ly_err_first: rec ? rec->err : NULL *)
 | ErrClear                      (* ly_err_clean(ctx, NULL): free rec->err; rec->err = NULL *)
@@ -157,10 +164,10 @@ Record state := mkS {
   s_ldict : option tid;
   s_lhash : option tid;
   s_dict : dictT;
-  s_egen : N;                 (* generation of the err_ht arena *)
+  s_egen : N;                 (* generation of the err_ht arena (of record POINTERS; nothing outside the lock points into it) *)
   s_esize : N;                (* ht->size *)
   s_emode : N;                (* ht->resize: 1 = enlarge only after 50 % was reached once, 2 = resizing enabled *)
-  s_erecs : list erec;        (* the records, in order of insertion *)
+  s_erecs : list erec;        (* the separately allocated records, in order of creation; never freed before the context *)
   s_canon : nat -> bool;      (* value->_canonical != NULL of the shared values *)
   s_hash : bool;              (* LYB hashes cached *)
   s_thr : list tstate }.
@@ -214,7 +221,7 @@ Inductive event :=
 | EvBadUnlock (m : lockid)
 | EvDict (o : dop) (r : dret)               (* a dictionary call returns *)
 | EvErrGot (items : option (list eitem))    (* ly_err_first: the list of the thread's record, None = no record *)
-| EvDangling (write : bool)                 (* a record pointer of an older arena generation is dereferenced *)
+| EvDangling (write : bool)                 (* a record handle that names no record is dereferenced (proved unreachable) *)
 | EvNullRec                                 (* log_store / ly_err_clean without a record *)
 | EvCanonUse (v : nat) (cached : bool)
 | EvHashRead (cached : bool)
@@ -259,7 +266,7 @@ Definition exec_step (st : state) (t : tid) (ts : tstate) (stp : step) (rest : l
       else (adv st RNone (t_local ts) rest, [EvDict (DRem s) (RCode ENOTFOUND)])
   | ErrFind =>
       (adv st (RPtr (match find_rec (s_erecs st) t 0 with
-                     | Some i => Some (mkptr (s_egen st) i) | None => None end)) (t_local ts) rest,
+                     | Some i => Some (mkptr i) | None => None end)) (t_local ts) rest,
        [EvAccess RErrTab (holds st t LHash)])
   | ErrInsert =>
       match find_rec (s_erecs st) t 0 with
@@ -267,42 +274,36 @@ Definition exec_step (st : state) (t : tid) (ts : tstate) (stp : step) (rest : l
       | None =>
           let recs := s_erecs st ++ [(t, [])] in
           let '(g, sz, md) := err_resize (s_egen st) (s_esize st) (s_emode st) (N.of_nat (length recs)) in
-          (adv (set_err st g sz md recs) (RPtr (Some (mkptr g (length (s_erecs st))))) (t_local ts) rest,
+          (adv (set_err st g sz md recs) (RPtr (Some (mkptr (length (s_erecs st))))) (t_local ts) rest,
            [EvAccess RErrTab (holds st t LHash)])
       end
   | ErrWrite e =>
       match t_reg ts with
       | RPtr (Some p) =>
-          if p_gen p =? s_egen st
-          then match nth_error (s_erecs st) (p_idx p) with
-               | Some r => (same (set_err st (s_egen st) (s_esize st) (s_emode st)
-                                          (lset (s_erecs st) (p_idx p) (fst r, snd r ++ [(t, e)]))), [])
-               | None => (same st, [EvDangling true])
-               end
-          else (same st, [EvDangling true])
+          match nth_error (s_erecs st) (p_idx p) with
+          | Some r => (same (set_err st (s_egen st) (s_esize st) (s_emode st)
+                                     (lset (s_erecs st) (p_idx p) (fst r, snd r ++ [(t, e)]))), [])
+          | None => (same st, [EvDangling true])
+          end
       | _ => (same st, [EvNullRec])
       end
   | ErrRead =>
       match t_reg ts with
       | RPtr (Some p) =>
-          if p_gen p =? s_egen st
-          then match nth_error (s_erecs st) (p_idx p) with
-               | Some r => (same st, [EvErrGot (Some (snd r))])
-               | None => (same st, [EvDangling false])
-               end
-          else (same st, [EvDangling false])
+          match nth_error (s_erecs st) (p_idx p) with
+          | Some r => (same st, [EvErrGot (Some (snd r))])
+          | None => (same st, [EvDangling false])
+          end
       | _ => (same st, [EvErrGot None])
       end
   | ErrClear =>
       match t_reg ts with
       | RPtr (Some p) =>
-          if p_gen p =? s_egen st
-          then match nth_error (s_erecs st) (p_idx p) with
-               | Some r => (same (set_err st (s_egen st) (s_esize st) (s_emode st)
-                                          (lset (s_erecs st) (p_idx p) (fst r, []))), [])
-               | None => (same st, [EvDangling true])
-               end
-          else (same st, [EvDangling true])
+          match nth_error (s_erecs st) (p_idx p) with
+          | Some r => (same (set_err st (s_egen st) (s_esize st) (s_emode st)
+                                     (lset (s_erecs st) (p_idx p) (fst r, []))), [])
+          | None => (same st, [EvDangling true])
+          end
       | _ => (same st, [])                   (* if (!(rec = ly_err_get_rec(ctx))) return; *)
       end
   | CanonCheck v => (adv st (RCached (s_canon st v)) (t_local ts) rest, [])
@@ -508,9 +509,10 @@ Definition held_refs (own : list (tid * bytes)) (x : bytes) : N :=
 (* ---------------------------------------------------------------------------------------------------------------
    the two witness scenarios (also forced on the C code by impl/t_conc.c, flags f)
    --------------------------------------------------------------------------------------------------------------- *)
-(* threads 0..4 log their first error one after the other; thread 0 calls ly_err_last and is preempted after
-   ly_err_get_rec returned (3 steps: Acquire, ErrFind, Release); thread 5 logs its first error (the 6th record:
-   6*100/8 = 75 -> lyht_resize frees the arena); thread 0 dereferences its pointer *)
+(* regression (former witness of err_rec_pointer_stable_refuted): threads 0..4 log their first error one after the
+   other; thread 0 calls ly_err_last and is preempted after ly_err_get_rec returned (3 steps: Acquire, ErrFind,
+   Release); thread 5 logs its first error (the 6th record: 6*100/8 = 75 -> lyht_resize frees the arena of record
+   pointers); thread 0 uses its handle: since 75f292f it names the record itself and the read gives thread 0's item *)
 Definition w_err_progs : list (list step) :=
   [compile [ALogStore 10; AErrLast]; compile [ALogStore 11]; compile [ALogStore 12]; compile [ALogStore 13];
    compile [ALogStore 14]; compile [ALogStore 15]].
